@@ -133,4 +133,435 @@ theorem names_eval (l : List Bytes) (i : Nat) (h : i < l.length) : (names l).eva
   refine ⟨_, ⟨l[i], List.getElem_mem h, rfl⟩, ?_⟩
   simp [List.getD, List.getElem?_eq_getElem h]
 
+/-! ### the invariant -/
+
+/-- `RV d vk v`: `v` is a value the renderer writes under a key of value kind `vk` (the structural kinds
+    `rootRef` / `kids` have their own constructors in `S'`) -/
+def RV (d : Doc) : ValKind → Obj → Prop
+  | .nameIs n, v => v = .name n
+  | .nameIn l, v => ∃ i, i < l.length ∧ v = nameAt l i
+  | .name, v => ∃ s, v = .name s
+  | .str, v => ∃ s, v = .str s
+  | .bool, v => ∃ b, v = .bool b
+  | .int, v => ∃ i, v = .int i
+  | .number, v => ∃ n : Num, v = n.obj
+  | .rect, v => ∃ r : Rect, v = r.obj
+  | .date, v => ∃ t : Date, v = t.obj
+  | .array, v => ∃ rs : List Nat, v = .arr (arrOf (rs.map fun r => Obj.ref r 0))
+  | .arrayOrDict, v => v = .arr .nil ∨ v = .dict .nil
+  | .numTree, v => ∃ t : Tree Int, v = Tree.obj CatalogRules.kNums Obj.int t
+  | .nameDict, v => ∃ c : CatOpts, namesDict c = some v
+  | .refDict, v => ∃ i, v = .ref i 0 ∧ d.cat.outlines = some i
+  | .refStream, v => ∃ i, v = .ref i 0 ∧ d.cat.metadata = some i
+  | .parentRef, v => ∃ p, v = .ref p 0
+  | .rootRef, _ => False
+  | .kids, _ => False
+
+inductive S' (d : Doc) : Obj → Chk → Prop
+  | cat : S' d (catalogDict d) shippedCat
+  | catPages : S' d (.ref d.rootId 0) rootR
+  | rootKids : S' d (.arr (arrOf d.kids.refs)) kidsRR
+  | kid (b : Bool) (p : Nat) (n : Node) : Sub d b p n → S' d (.ref n.id 0) (kidC b)
+  | alt (b : Bool) (p : Nat) (n : Node) : Sub d b p n → S' d (.ref n.id 0) (altFor b n)
+  | nodeKids (b : Bool) (p i : Nat) (c : Int) (kids : Nodes) :
+      Sub d b p (.pages i c kids) → S' d (.arr (arrOf kids.refs)) kidsNR
+  /-- a rendered value of kind `vk` against a shipped check of the shape of `vk` -/
+  | menu (vk : ValKind) (v : Obj) (c : Chk) : kindMatches vk c = true → RV d vk v → S' d v c
+  | real (n m : Int) : S' d (.real n m) (.prim Attr.dflt .real)
+  | annot (r : Nat) : S' d (.ref r 0) (.any Attr.dflt)
+  | emptyDict : S' d (.dict .nil) (.dict Attr.dflt .nil)
+  | nameTree (t : Tree Bytes) (c : Chk) :
+      isAny (res c) .allowed (some .nameTree) = true → S' d (Tree.obj kNamesKey strObj t) c
+
+/-- the shipped entry of a key of the rules' tables accepts (by `f`, true on the invariant) every rendered
+    value of the key's kind -/
+theorem menu_entry (d : Doc) (f : Obj → Chk → Bool) (hf : ∀ o' c', S' d o' c' → f o' c' = true)
+    (k : DictKind) (c : Chk) (hc : c ∈ rawChks k) (key : Bytes) (vk : ValKind) (he : (key, vk) ∈ keyTable k)
+    (v : Obj) (hrv : RV d vk v) :
+    ∃ o' c', findEnt (entsOf c) key = some (o', c') ∧ o' ≠ .forbidden ∧ f v c' = true := by
+  have hk : k ∈ [DictKind.catalog, .root, .node, .page, .tmpl] := by cases k <;> decide
+  have h := F_kind k hk c hc (key, vk) he
+  unfold entryMatches at h
+  cases hfe : findEnt (entsOf c) key with
+  | none => rw [hfe] at h; simp at h
+  | some oc =>
+    obtain ⟨opt, c'⟩ := oc
+    rw [hfe] at h
+    simp only [Bool.and_eq_true, decide_eq_true_eq] at h
+    refine ⟨opt, c', rfl, ?_, hf _ _ (S'.menu vk v c' h.2 hrv)⟩
+    rw [h.1]; split <;> decide
+
+theorem tree_isRef {κ : Type} (lk : Bytes) (fn : κ → Obj) (t : Tree κ) : (Tree.obj lk fn t).isRef = false := by
+  cases t <;> rfl
+
+theorem namesDict_rows (c : CatOpts) (v : Obj) (h : namesDict c = some v) :
+    v = .dict (dictOfList (optPairs [(kDests, c.dests.map (Tree.obj kNamesKey strObj)),
+                                     (kEmbeddedFiles, c.embeddedFiles.map (Tree.obj kNamesKey strObj))])) := by
+  unfold namesDict at h
+  cases hd : c.dests <;> cases he : c.embeddedFiles <;> simp [hd, he] at h <;> subst h <;> rfl
+
+/-- one unfolding of a menu value against a check of its kind -/
+theorem menu_closed (g : Graph) (d : Doc) (hdate : ∀ s, CatalogRules.isDate s = PdfDate.dateOK s)
+    (houtl : ∀ i, d.cat.outlines = some i → g.lookup (i, 0) = some (.dict .nil))
+    (hmeta : ∀ i, d.cat.metadata = some i → g.lookup (i, 0) = some (.stream .nil 0 []))
+    (vk : ValKind) (v : Obj) (c : Chk) (hk : kindMatches vk c = true) (hrv : RV d vk v)
+    (f : Obj → Chk → Bool) (hf : ∀ o' c', S' d o' c' → f o' c' = true) :
+    confStep g shippedCtx f v c = true := by
+  cases vk with
+  | nameIs n =>
+    simp only [RV] at hrv; subst hrv
+    exact conf_isPrim g f _ c _ _ hk rfl (by simp [names, Pred.eval]) rfl
+  | nameIn l =>
+    obtain ⟨i, hi, rfl⟩ := hrv
+    exact conf_isPrim g f _ c _ _ hk rfl (names_eval l i hi) rfl
+  | name =>
+    obtain ⟨s, rfl⟩ := hrv
+    exact conf_resPrim g f _ c _ (of_decide_eq_true hk) rfl rfl
+  | str =>
+    obtain ⟨s, rfl⟩ := hrv
+    exact conf_resPrim g f _ c _ (of_decide_eq_true hk) rfl rfl
+  | bool =>
+    obtain ⟨s, rfl⟩ := hrv
+    exact conf_resPrim g f _ c _ (of_decide_eq_true hk) rfl rfl
+  | int =>
+    obtain ⟨s, rfl⟩ := hrv
+    exact conf_resPrim g f _ c _ (of_decide_eq_true hk) rfl rfl
+  | number =>
+    obtain ⟨n, rfl⟩ := hrv
+    have hr : res c = numberChk := of_decide_eq_true hk
+    have hres := resolve_of_res c _ hr (by intro n; simp [numberChk])
+    cases n with
+    | int i =>
+      refine conf_disj g shippedCtx f _ c _ _ (.prim Attr.dflt .integer) hres rfl rfl
+        (by simp [ChkL.chks, ChkL.toList]) (hf _ _ (S'.menu .int _ _ (by decide +kernel) ⟨i, rfl⟩))
+    | real a b =>
+      refine conf_disj g shippedCtx f _ c _ _ (.prim Attr.dflt .real) hres rfl rfl
+        (by simp [ChkL.chks, ChkL.toList]) (hf _ _ (S'.real a b))
+  | rect =>
+    obtain ⟨r, rfl⟩ := hrv
+    have hr : res c = .array Attr.dflt numberChk (some 4) := of_decide_eq_true hk
+    have hres := resolve_of_res c _ hr (by intro n; simp)
+    refine conf_array_sized g shippedCtx f _ c _ _ _ 4 hres (value_nonref g _ rfl) rfl rfl ?_ ?_
+    · rw [arrOf_vals]; rfl
+    · intro x hx
+      rw [arrOf_vals] at hx
+      have : ∃ n : Num, x = n.obj := by
+        simp only [List.mem_cons, List.not_mem_nil, or_false] at hx
+        rcases hx with rfl | rfl | rfl | rfl <;> exact ⟨_, rfl⟩
+      exact hf _ _ (S'.menu .number x numberChk (by decide +kernel) this)
+  | date =>
+    obtain ⟨t, rfl⟩ := hrv
+    refine conf_isPrim g f _ c _ _ hk rfl ?_ rfl
+    show PdfDate.dateOK t.bytes = true
+    rw [← hdate]; exact date_bytes_isDate t
+  | array =>
+    obtain ⟨rs, rfl⟩ := hrv
+    have hr : res c = .array Attr.dflt (.any Attr.dflt) none := of_decide_eq_true hk
+    have hres := resolve_of_res c _ hr (by intro n; simp)
+    refine conf_array g shippedCtx f _ c _ _ _ hres (value_nonref g _ rfl) rfl rfl ?_
+    intro x hx
+    rw [arrOf_vals] at hx
+    obtain ⟨r, _, rfl⟩ := List.mem_map.mp hx
+    exact hf _ _ (S'.annot r)
+  | arrayOrDict =>
+    have hr : res c = arrayOrDictChk := of_decide_eq_true hk
+    have hres := resolve_of_res c _ hr (by intro n; simp [arrayOrDictChk])
+    rcases hrv with rfl | rfl
+    · refine conf_disj g shippedCtx f _ c _ _ (.array Attr.dflt (.any Attr.dflt) none) hres rfl rfl
+        (by simp [ChkL.chks, ChkL.toList]) (hf _ _ (S'.menu .array _ _ (by decide +kernel) ⟨[], rfl⟩))
+    · refine conf_disj g shippedCtx f _ c _ _ (.dict Attr.dflt .nil) hres rfl rfl
+        (by simp [ChkL.chks, ChkL.toList]) (hf _ _ S'.emptyDict)
+  | numTree =>
+    obtain ⟨t, rfl⟩ := hrv
+    refine conf_isAny g f _ c _ hk (tree_isRef _ _ t) ?_
+    rw [← number_tree_rule_eq_shipped]
+    exact numtree_fits t
+  | nameDict =>
+    obtain ⟨cc, hv⟩ := hrv
+    have hv := namesDict_rows cc v hv
+    subst hv
+    simp only [kindMatches, nameDictMatches] at hk
+    cases hr : res c with
+    | dict a ents =>
+      rw [hr] at hk
+      simp only [Bool.and_eq_true, decide_eq_true_eq] at hk
+      obtain ⟨⟨⟨ha, hnd⟩, hnr⟩, hkeys⟩ := hk
+      subst ha
+      have hres := resolve_of_res c _ hr (by intro n; simp)
+      refine conf_dict g shippedCtx f _ .null c _ _ _ hres (value_nonref g _ rfl) rfl rfl hnd ?_
+        (hval_list f _ _ ?_)
+      · rw [List.all_eq_true] at hnr ⊢
+        intro e he
+        rw [hnr e he]; rfl
+      · intro kv hkv
+        obtain ⟨k, v⟩ := kv
+        rw [mem_optPairs] at hkv
+        simp only [List.mem_cons, Prod.mk.injEq, List.not_mem_nil, or_false] at hkv
+        simp only [CatalogRules.nameTreeKeys, List.all_cons, List.all_nil, Bool.and_true, Bool.and_eq_true] at hkeys
+        rcases hkv with ⟨rfl, h⟩ | ⟨rfl, h⟩
+        · obtain ⟨t, _, rfl⟩ := map_some_eq h
+          have h1 := hkeys.1
+          cases hfe : findEnt ents kDests with
+          | none => rw [hfe] at h1; simp at h1
+          | some oc =>
+            obtain ⟨opt, c''⟩ := oc
+            rw [hfe] at h1
+            simp only [Bool.and_eq_true, decide_eq_true_eq] at h1
+            exact ⟨opt, c'', rfl, by rw [h1.1]; decide, hf _ _ (S'.nameTree t c'' h1.2)⟩
+        · obtain ⟨t, _, rfl⟩ := map_some_eq h
+          have h1 := hkeys.2
+          cases hfe : findEnt ents kEmbeddedFiles with
+          | none => rw [hfe] at h1; simp at h1
+          | some oc =>
+            obtain ⟨opt, c''⟩ := oc
+            rw [hfe] at h1
+            simp only [Bool.and_eq_true, decide_eq_true_eq] at h1
+            exact ⟨opt, c'', rfl, by rw [h1.1]; decide, hf _ _ (S'.nameTree t c'' h1.2)⟩
+    | _ => rw [hr] at hk; simp at hk
+  | refDict =>
+    obtain ⟨i, rfl, hi⟩ := hrv
+    have hr : res c = .dict ⟨none, .required⟩ .nil := of_decide_eq_true hk
+    have hres := resolve_of_res c _ hr (by intro n; simp)
+    exact conf_dict_nil g shippedCtx f _ c _ _ hres (value_ref g _ _ _ (houtl i hi) rfl) rfl rfl
+  | refStream =>
+    obtain ⟨i, rfl, hi⟩ := hrv
+    have hr : res c = .stream ⟨none, .required⟩ .nil := of_decide_eq_true hk
+    have hres := resolve_of_res c _ hr (by intro n; simp)
+    exact conf_stream_nil g shippedCtx f _ c _ _ _ _ hres (value_ref g _ _ _ (hmeta i hi) rfl) rfl rfl
+  | parentRef =>
+    obtain ⟨p, rfl⟩ := hrv
+    have hr : res c = .any ⟨none, .required⟩ := of_decide_eq_true hk
+    have hres := resolve_of_res c _ hr (by intro n; simp)
+    exact conf_any_ref g shippedCtx f _ _ c _ hres (by decide)
+  | rootRef => exact absurd hrv (by simp [RV])
+  | kids => exact absurd hrv (by simp [RV])
+
+/-! ### rows of the rendered dictionaries, as rendered values of the rules' kinds -/
+
+theorem pageRows_rv (d : Doc) (o : PageOpts) (parent : Option Obj) (typ k : Bytes) (v : Obj)
+    (h : (k, some v) ∈ pageRows o parent typ) :
+    (k = kParent ∧ parent = some v) ∨ (k = kType ∧ v = .name typ) ∨ ∃ vk, (k, vk) ∈ pageMenu ∧ RV d vk v := by
+  simp only [pageRows, List.mem_cons, Prod.mk.injEq, List.not_mem_nil, or_false] at h
+  rcases h with ⟨rfl, h⟩ | ⟨rfl, h⟩ | ⟨rfl, h⟩ | ⟨rfl, h⟩ | ⟨rfl, h⟩ | ⟨rfl, h⟩ | ⟨rfl, h⟩ | ⟨rfl, h⟩ | ⟨rfl, h⟩ |
+    ⟨rfl, h⟩
+  · obtain ⟨a, _, rfl⟩ := map_some_eq h
+    exact Or.inr (Or.inr ⟨.array, by simp [pageMenu], ⟨a, rfl⟩⟩)
+  · obtain ⟨a, _, rfl⟩ := map_some_eq h
+    exact Or.inr (Or.inr ⟨.rect, by simp [pageMenu], ⟨a, rfl⟩⟩)
+  · obtain ⟨a, _, rfl⟩ := map_some_eq h
+    exact Or.inr (Or.inr ⟨.str, by simp [pageMenu], ⟨a, rfl⟩⟩)
+  · obtain ⟨a, _, rfl⟩ := map_some_eq h
+    exact Or.inr (Or.inr ⟨.date, by simp [pageMenu], ⟨a, rfl⟩⟩)
+  · obtain ⟨a, _, rfl⟩ := map_some_eq h
+    exact Or.inr (Or.inr ⟨.rect, by simp [pageMenu], ⟨a, rfl⟩⟩)
+  · exact Or.inl ⟨rfl, h.symm⟩
+  · obtain ⟨a, _, rfl⟩ := map_some_eq h
+    exact Or.inr (Or.inr ⟨.int, by simp [pageMenu], ⟨a, rfl⟩⟩)
+  · obtain ⟨a, _, rfl⟩ := map_some_eq h
+    exact Or.inr (Or.inr ⟨.nameIn tabOrders, by simp [pageMenu], ⟨a.val, a.isLt, rfl⟩⟩)
+  · exact Or.inr (Or.inl ⟨rfl, by simpa using h⟩)
+  · obtain ⟨a, _, rfl⟩ := map_some_eq h
+    exact Or.inr (Or.inr ⟨.number, by simp [pageMenu], ⟨a, rfl⟩⟩)
+
+theorem catRows_rv (d : Doc) (k : Bytes) (v : Obj) (h : (k, some v) ∈ catRows d) :
+    (k = kPages ∧ v = .ref d.rootId 0) ∨ ∃ vk, (k, vk) ∈ keyTable .catalog ∧ RV d vk v := by
+  simp only [catRows, List.mem_cons, Prod.mk.injEq, List.not_mem_nil, or_false] at h
+  rcases h with ⟨rfl, h⟩ | ⟨rfl, h⟩ | ⟨rfl, h⟩ | ⟨rfl, h⟩ | ⟨rfl, h⟩ | ⟨rfl, h⟩ | ⟨rfl, h⟩ | ⟨rfl, h⟩ | ⟨rfl, h⟩ |
+    ⟨rfl, h⟩ | ⟨rfl, h⟩ | ⟨rfl, h⟩
+  · obtain ⟨a, _, rfl⟩ := map_some_eq h
+    exact Or.inr ⟨.str, by simp [keyTable], ⟨a, rfl⟩⟩
+  · obtain ⟨a, ha, rfl⟩ := map_some_eq h
+    exact Or.inr ⟨.refStream, by simp [keyTable], ⟨a, rfl, ha⟩⟩
+  · exact Or.inr ⟨.nameDict, by simp [keyTable], ⟨d.cat, h.symm⟩⟩
+  · obtain ⟨a, _, rfl⟩ := map_some_eq h
+    exact Or.inr ⟨.bool, by simp [keyTable], ⟨a, rfl⟩⟩
+  · obtain ⟨a, _, rfl⟩ := map_some_eq h
+    refine Or.inr ⟨.arrayOrDict, by simp [keyTable], ?_⟩
+    cases a
+    · exact Or.inr (by simp)
+    · exact Or.inl (by simp)
+  · obtain ⟨a, ha, rfl⟩ := map_some_eq h
+    exact Or.inr ⟨.refDict, by simp [keyTable], ⟨a, rfl, ha⟩⟩
+  · obtain ⟨a, _, rfl⟩ := map_some_eq h
+    exact Or.inr ⟨.numTree, by simp [keyTable], ⟨a, rfl⟩⟩
+  · obtain ⟨a, _, rfl⟩ := map_some_eq h
+    exact Or.inr ⟨.nameIn pageLayouts, by simp [keyTable], ⟨a.val, a.isLt, rfl⟩⟩
+  · obtain ⟨a, _, rfl⟩ := map_some_eq h
+    exact Or.inr ⟨.nameIn pageModes, by simp [keyTable], ⟨a.val, a.isLt, rfl⟩⟩
+  · exact Or.inl ⟨rfl, by simpa using h⟩
+  · exact Or.inr ⟨.nameIs nCatalog, by simp [keyTable], by simpa [RV] using h⟩
+  · obtain ⟨a, _, rfl⟩ := map_some_eq h
+    exact Or.inr ⟨.name, by simp [keyTable], ⟨a, rfl⟩⟩
+
+/-! ### the invariant is closed under one unfolding -/
+
+theorem mem_rawChks_page (b : Bool) : pageC b ∈ rawChks .page := by
+  cases b
+  · exact List.mem_cons_of_mem _ List.mem_cons_self
+  · exact List.mem_cons_self
+
+theorem mem_rawChks_tmpl (b : Bool) : tmplC b ∈ rawChks .tmpl := by
+  cases b
+  · exact List.mem_cons_of_mem _ List.mem_cons_self
+  · exact List.mem_cons_self
+
+theorem get_row_isSome (L : List (Bytes × Option Obj)) (hnd : (L.map (·.1)).Nodup) (k : Bytes) (v : Obj)
+    (h : (k, some v) ∈ L) : ((dictOfList (optPairs L)).get k).isSome = true := by
+  rw [get_rows L hnd k (some v) h]; rfl
+
+theorem S'_closed (g : Graph) (d : Doc) (hdate : ∀ s, CatalogRules.isDate s = PdfDate.dateOK s)
+    (hroot : g.lookup (d.rootId, 0) = some (nodeDict d.count d.kids none))
+    (hlook : ∀ b p n, Sub d b p n → g.lookup (n.id, 0) = some (n.dict p))
+    (houtl : ∀ i, d.cat.outlines = some i → g.lookup (i, 0) = some (.dict .nil))
+    (hmeta : ∀ i, d.cat.metadata = some i → g.lookup (i, 0) = some (.stream .nil 0 [])) :
+    ∀ o c, S' d o c → ∀ f : Obj → Chk → Bool, (∀ o' c', S' d o' c' → f o' c' = true) →
+      confStep g shippedCtx f o c = true := by
+  intro o c hS f hf
+  cases hS with
+  | cat =>
+    rw [catalogDict_eq]
+    refine conf_dict g shippedCtx f _ .null shippedCat _ _ _ F_dicts.1 (value_nonref g _ rfl) rfl rfl
+      F_nodup.1 (req_mono _ _ _ F_req.1 ?_) (hval_list f _ _ ?_)
+    · intro k hk
+      simp only [List.mem_cons, List.not_mem_nil, or_false] at hk
+      rcases hk with rfl | rfl
+      · exact get_row_isSome _ (catRows_nodup d) _ (.ref d.rootId 0) (by simp [catRows])
+      · exact get_row_isSome _ (catRows_nodup d) _ (.name nCatalog) (by simp [catRows])
+    · intro kv hkv
+      obtain ⟨k, v⟩ := kv
+      rw [mem_optPairs] at hkv
+      rcases catRows_rv d k v hkv with ⟨rfl, rfl⟩ | ⟨vk, hvk, hrv⟩
+      · exact ⟨_, _, F_find.1, by decide, hf _ _ S'.catPages⟩
+      · exact menu_entry d f hf .catalog shippedCat List.mem_cons_self k vk hvk v hrv
+  | catPages =>
+    have hv : value g (.ref d.rootId 0) = nodeDict d.count d.kids none := value_ref g _ _ _ hroot rfl
+    rw [nodeDict_eq] at hv
+    refine conf_dict g shippedCtx f _ .null rootR _ _ _ F_dicts.2.1 hv rfl rfl
+      F_nodup.2.1 (req_mono _ _ _ F_req.2.1 ?_) (hval_list f _ _ ?_)
+    · intro k hk
+      simp only [List.mem_cons, List.not_mem_nil, or_false] at hk
+      rcases hk with rfl | rfl | rfl
+      · exact get_row_isSome _ (nodeRows_nodup _ _ _) _ (.int d.count) (by simp [nodeRows])
+      · exact get_row_isSome _ (nodeRows_nodup _ _ _) _ (.arr (arrOf d.kids.refs))
+          (by simp [nodeRows, show TC.kKids = CatalogRules.kKids from rfl])
+      · exact get_row_isSome _ (nodeRows_nodup _ _ _) _ (.name kPages) (by simp [nodeRows])
+    · intro kv hkv
+      obtain ⟨k, v⟩ := kv
+      rw [mem_optPairs] at hkv
+      simp only [nodeRows, List.mem_cons, Prod.mk.injEq, List.not_mem_nil, or_false] at hkv
+      rcases hkv with ⟨rfl, h⟩ | ⟨rfl, h⟩ | ⟨rfl, h⟩ | ⟨rfl, h⟩
+      · exact menu_entry d f hf .root rootR List.mem_cons_self _ .int (by simp [keyTable]) v
+          ⟨d.count, by simpa using h⟩
+      · have h : v = .arr (arrOf d.kids.refs) := by simpa using h
+        subst h
+        exact ⟨_, _, F_find.2.2.2.2.1, by decide, hf _ _ S'.rootKids⟩
+      · simp at h
+      · exact menu_entry d f hf .root rootR List.mem_cons_self _ (.nameIs kPages) (by simp [keyTable]) v
+          (by simpa [RV] using h)
+  | rootKids =>
+    refine conf_array g shippedCtx f _ kidsRR _ _ _ F_arrays.1 (value_nonref g _ rfl) rfl rfl ?_
+    intro x hx
+    rcases refs_vals d.kids x hx with ⟨n, hn, rfl⟩
+    exact hf _ _ (S'.kid true d.rootId n (Sub.top n hn))
+  | kid b p n hsub =>
+    have hF := F_arrays.2.2.2 b
+    refine conf_disj g shippedCtx f _ (kidC b) _ _ (altFor b n) (F_arrays.2.2.1 b) rfl rfl ?_
+      (hf _ _ (S'.alt b p n hsub))
+    cases n with
+    | page i o => exact hF.1
+    | tmpl i o => exact hF.2.1
+    | pages i c k => exact hF.2.2
+  | alt b p n hsub =>
+    have hl := hlook b p n hsub
+    cases n with
+    | page i o =>
+      have hv : value g (.ref i 0) = _ := value_ref g _ _ _ hl rfl
+      simp only [Node.dict] at hv
+      rw [pageDict_eq] at hv
+      refine conf_dict g shippedCtx f _ .null (pageC b) _ _ _ (F_dicts.2.2.2.1 b) hv rfl rfl
+        (F_nodup.2.2.2.1 b) (req_mono _ _ _ (F_req.2.2.2.1 b) ?_) (hval_list f _ _ ?_)
+      · intro k hk
+        simp only [List.mem_cons, List.not_mem_nil, or_false] at hk
+        rcases hk with rfl | rfl
+        · exact get_row_isSome _ (pageRows_nodup _ _ _) _ (.ref p 0) (by simp [pageRows])
+        · exact get_row_isSome _ (pageRows_nodup _ _ _) _ (.name nPage) (by simp [pageRows])
+      · intro kv hkv
+        obtain ⟨k, v⟩ := kv
+        rw [mem_optPairs] at hkv
+        rcases pageRows_rv d o _ _ k v hkv with ⟨rfl, h⟩ | ⟨rfl, rfl⟩ | ⟨vk, hvk, hrv⟩
+        · exact menu_entry d f hf .page (pageC b) (mem_rawChks_page b) _ .parentRef (by simp [keyTable]) v
+            ⟨p, by simpa using h.symm⟩
+        · exact menu_entry d f hf .page (pageC b) (mem_rawChks_page b) _ (.nameIs nPage) (by simp [keyTable]) _ rfl
+        · exact menu_entry d f hf .page (pageC b) (mem_rawChks_page b) k vk
+            (by simp only [keyTable]; exact List.mem_append_right _ hvk) v hrv
+    | tmpl i o =>
+      have hv : value g (.ref i 0) = _ := value_ref g _ _ _ hl rfl
+      simp only [Node.dict] at hv
+      rw [pageDict_eq] at hv
+      refine conf_dict g shippedCtx f _ .null (tmplC b) _ _ _ (F_dicts.2.2.2.2 b) hv rfl rfl
+        (F_nodup.2.2.2.2 b) (req_mono _ _ _ (F_req.2.2.2.2 b) ?_) (hval_list f _ _ ?_)
+      · intro k hk
+        simp only [List.mem_cons, List.not_mem_nil, or_false] at hk
+        subst hk
+        exact get_row_isSome _ (pageRows_nodup _ _ _) _ (.name nTemplate) (by simp [pageRows])
+      · intro kv hkv
+        obtain ⟨k, v⟩ := kv
+        rw [mem_optPairs] at hkv
+        rcases pageRows_rv d o _ _ k v hkv with ⟨rfl, h⟩ | ⟨rfl, rfl⟩ | ⟨vk, hvk, hrv⟩
+        · simp at h
+        · exact menu_entry d f hf .tmpl (tmplC b) (mem_rawChks_tmpl b) _ (.nameIs nTemplate) (by simp [keyTable]) _
+            rfl
+        · exact menu_entry d f hf .tmpl (tmplC b) (mem_rawChks_tmpl b) k vk
+            (by simp only [keyTable]; exact List.mem_append_right _ hvk) v hrv
+    | pages i c k =>
+      have hv : value g (.ref i 0) = _ := value_ref g _ _ _ hl rfl
+      simp only [Node.dict] at hv
+      rw [nodeDict_eq] at hv
+      refine conf_dict g shippedCtx f _ .null (nodeAlt b) _ _ _ (F_dicts.2.2.1 b) hv rfl rfl
+        F_nodup.2.2.1 (req_mono _ _ _ F_req.2.2.1 ?_) (hval_list f _ _ ?_)
+      · intro k' hk
+        simp only [List.mem_cons, List.not_mem_nil, or_false] at hk
+        rcases hk with rfl | rfl | rfl | rfl
+        · exact get_row_isSome _ (nodeRows_nodup _ _ _) _ (.int c) (by simp [nodeRows])
+        · exact get_row_isSome _ (nodeRows_nodup _ _ _) _ (.arr (arrOf k.refs))
+            (by simp [nodeRows, show TC.kKids = CatalogRules.kKids from rfl])
+        · exact get_row_isSome _ (nodeRows_nodup _ _ _) _ (.ref p 0) (by simp [nodeRows])
+        · exact get_row_isSome _ (nodeRows_nodup _ _ _) _ (.name kPages) (by simp [nodeRows])
+      · intro kv hkv
+        obtain ⟨k', v⟩ := kv
+        rw [mem_optPairs] at hkv
+        simp only [nodeRows, List.mem_cons, Prod.mk.injEq, List.not_mem_nil, or_false] at hkv
+        rcases hkv with ⟨rfl, h⟩ | ⟨rfl, h⟩ | ⟨rfl, h⟩ | ⟨rfl, h⟩
+        · exact menu_entry d f hf .node nodeR List.mem_cons_self _ .int (by simp [keyTable]) v
+            ⟨c, by simpa using h⟩
+        · have h : v = .arr (arrOf k.refs) := by simpa using h
+          subst h
+          exact ⟨_, _, F_find.2.2.2.2.2.2.2.1, by decide, hf _ _ (S'.nodeKids b p i c k hsub)⟩
+        · exact menu_entry d f hf .node nodeR List.mem_cons_self _ .parentRef (by simp [keyTable]) v
+            ⟨p, by simpa using h⟩
+        · exact menu_entry d f hf .node nodeR List.mem_cons_self _ (.nameIs kPages) (by simp [keyTable]) v
+            (by simpa [RV] using h)
+  | nodeKids b p i c kids hsub =>
+    refine conf_array g shippedCtx f _ kidsNR _ _ _ F_arrays.2.1 (value_nonref g _ rfl) rfl rfl ?_
+    intro x hx
+    rcases refs_vals kids x hx with ⟨n, hn, rfl⟩
+    exact hf _ _ (S'.kid false i n (Sub.deep b p i c kids n hsub hn))
+  | menu vk v' c' hk hrv => exact menu_closed g d hdate houtl hmeta vk _ _ hk hrv f hf
+  | real n m => exact conf_prim g shippedCtx f _ _ Attr.dflt .real rfl rfl rfl
+  | annot r => exact conf_any_ref g shippedCtx f _ _ _ .allowed rfl (by decide)
+  | emptyDict => exact conf_dict_nil g shippedCtx f _ _ Attr.dflt _ rfl (value_nonref g _ rfl) rfl rfl
+  | nameTree t c' h =>
+    refine conf_isAny g f _ _ _ h (tree_isRef _ _ t) ?_
+    rw [← name_tree_rule_eq_shipped]
+    exact tree_obj_str t
+
+/-! ### the theorem -/
+
+theorem rendered_conforms_of_date (hdate : ∀ s, CatalogRules.isDate s = PdfDate.dateOK s) (d : Doc)
+    (hok : d.ok = true) :
+    Conforms (CatalogRules.render d).1 shippedCtx (CatalogRules.render d).2 shippedCat :=
+  conforms_of_invariant _ shippedCtx (S' d)
+    (S'_closed d.graph d hdate (graph_lookup_root d) (graph_lookup_sub d hok) (graph_lookup_outlines d hok)
+      (graph_lookup_metadata d hok)) _ _ S'.cat
+
 end Parsley.C10
